@@ -3,8 +3,9 @@
    followed by Print Assumptions.  Models: NV.Trunc.Stream (BAM / BCF record readers, BGZF frame
    and block readers, a record reader layered on the BGZF reader) and NV.Index.Layout (BAI).
    All theorems quantify over EVERY written item list and EVERY cut point k (no bound). *)
-From Coq Require Import List Arith NArith Bool.
+From Coq Require Import List Arith NArith ZArith Bool.
 From NV Require Import Base.LE Trunc.Stream Trunc.StreamProofs Index.Layout Index.LayoutProofs Trunc.BaiProofs.
+From NV Require Import Bgzf.Crc32 Trunc.Cram Trunc.CramProofs Trunc.GziProofs Trunc.TextProofs.
 Import ListNotations.
 Open Scope N_scope.
 
@@ -82,6 +83,46 @@ Theorem c13_bcf_stream_truncation :
 Proof. exact bcf_stream_truncation. Qed.
 Print Assumptions c13_bcf_stream_truncation.
 
+(* ---- the eager BCF path (record_bufs; bcf/src/io/reader/record_buf.rs after the repair 762d61e;
+   read_site and read_samples are parameters that accept the written records): record by record it
+   is the lazy reader followed by the sample decoder, it obeys the same framing rule, and on every
+   cut of a written stream the two paths return the same records and the same outcome ---- *)
+Theorem c13_bcf_eager_is_lazy :
+  forall (site_ok : list N -> option ekind) (samples_ok : list N -> list N -> option ekind) after bs,
+    bcf_read_record_buf site_ok samples_ok after bs =
+      match bcf_read_record site_ok after bs with
+      | Item (site, samples) r =>
+          match samples_ok site samples with
+          | Some e => Stop (Err e)
+          | None => Item (site, samples) r
+          end
+      | Stop s => Stop s
+      end.
+Proof. exact bcf_eager_is_lazy. Qed.
+Print Assumptions c13_bcf_eager_is_lazy.
+
+Theorem c13_bcf_recordbuf_truncation :
+  forall (site_ok : list N -> option ekind) (samples_ok : list N -> list N -> option ekind) after rs k,
+  Forall (bcf_buf_good site_ok samples_ok) rs ->
+  exists j : nat,
+    (j <= length rs)%nat /\
+    (length (bcf_encode (firstn j rs)) <= k)%nat /\
+    (j < length rs -> k < length (bcf_encode (firstn (S j) rs)))%nat /\
+    read_stream (bcf_read_record_buf site_ok samples_ok after) (firstn k (bcf_encode rs)) =
+      (firstn j rs,
+       if (j <? length rs)%nat && negb (k =? length (bcf_encode (firstn j rs)))%nat
+       then Err (short after) else after).
+Proof. exact bcf_buf_stream_truncation. Qed.
+Print Assumptions c13_bcf_recordbuf_truncation.
+
+Theorem c13_bcf_eager_lazy_coincide :
+  forall (site_ok : list N -> option ekind) (samples_ok : list N -> list N -> option ekind) after rs k,
+  Forall (bcf_buf_good site_ok samples_ok) rs ->
+  read_stream (bcf_read_record_buf site_ok samples_ok after) (firstn k (bcf_encode rs)) =
+  read_stream (bcf_read_record site_ok after) (firstn k (bcf_encode rs)).
+Proof. exact bcf_eager_lazy_coincide. Qed.
+Print Assumptions c13_bcf_eager_lazy_coincide.
+
 (* ---- BGZF block sequence (model of bgzf/src/io/reader/frame.rs + reader.rs; DEFLATE + CRC of
    a complete frame is the parameter [inflate]): the data of the frames wholly inside the cut;
    clean end iff the cut is at a frame boundary or fewer than 18 bytes into the next frame (the
@@ -126,6 +167,25 @@ Theorem c13_bam_over_bgzf_truncation :
 Proof. exact bam_over_bgzf_truncation. Qed.
 Print Assumptions c13_bam_over_bgzf_truncation.
 
+(* ---- ANY record reader rd on top of the BGZF reader (BCF: rd = bcf_read_record_buf ..., payload =
+   bcf_encode rs, and c13_bcf_recordbuf_truncation describes the result; BAM as above): it behaves
+   as the plain-stream reader [rd s] on the part of the payload delivered by the frames wholly
+   inside the cut, s being the BGZF layer's own outcome ---- *)
+Theorem c13_records_over_bgzf_truncation :
+  forall (inflate : list N -> option (list N)) (A : Type) (rd : stop -> list N -> step A)
+         fs payload hdrbytes k,
+    Forall (frame_good inflate) fs ->
+    concat (map (frame_data inflate) fs) = hdrbytes ++ payload ->
+    exists (j : nat) (s : stop),
+      bgzf_blocks inflate (firstn k (bgzf_file fs)) = (map (frame_data inflate) (firstn j fs), s) /\
+      (s = Eof \/ s = Err UnexpectedEof) /\
+      let p := concat (map (frame_data inflate) (firstn j fs)) in
+      rec_over_bgzf inflate rd (length hdrbytes) (firstn k (bgzf_file fs)) =
+        if (length p <? length hdrbytes)%nat then None
+        else Some (read_stream (rd s) (firstn (length p - length hdrbytes) payload)).
+Proof. exact rec_over_bgzf_truncation. Qed.
+Print Assumptions c13_records_over_bgzf_truncation.
+
 (* ---- BAI (count-driven layout): Err for every cut below the start of the optional trailing
    n_no_coor field; the same index without the count for cuts inside / just before that field;
    the index itself on the whole file ---- *)
@@ -137,6 +197,133 @@ Theorem c13_bai_truncation : forall i k, bai_ok i ->
   ((length file <= k)%nat -> read_bai (firstn k file) = Some i).
 Proof. exact bai_truncation. Qed.
 Print Assumptions c13_bai_truncation.
+
+(* ---- gzi (u64 count, count pairs of u64, end of input demanded): no optional tail, so every
+   proper prefix of a written index is an error ---- *)
+Theorem c13_gzi_truncation : forall idx k,
+  N.of_nat (length idx) < 18446744073709551616 -> Forall chunk_ok idx ->
+  let file := w_gzi idx in
+  ((k < length file)%nat -> read_gzi (firstn k file) = None) /\
+  ((length file <= k)%nat -> read_gzi (firstn k file) = Some idx).
+Proof. exact gzi_truncation. Qed.
+Print Assumptions c13_gzi_truncation.
+
+(* ---- CRAM at the container level (model of cram/src/io/reader/{header.rs, header/container/**,
+   container.rs, container/header.rs}; ITF8/LTF8 bit-exact, CRC32 = any function [crc], decoding of
+   the header container's body = any function [hdr_body]).  A data container / the EOF container is
+   any byte string the reader parses as exactly one such unit.  The container stream behind the
+   header: for EVERY cut short of the whole stream exactly the containers wholly inside the cut are
+   returned and then UnexpectedEof -- at container boundaries and inside the EOF container's
+   23-byte header or 15-byte body as well; an instance of c13_stream_truncation ---- *)
+Theorem c13_cram_stream_truncation :
+  forall (crc : list N -> N) cs eofc k, Forall (cram_good crc) cs -> cram_eof_good crc eofc ->
+    let s := cram_encode cs ++ eofc in
+    ((k < length s)%nat ->
+       exists j : nat,
+         (j <= length cs)%nat /\
+         (length (cram_encode (firstn j cs)) <= k)%nat /\
+         (j < length cs -> k < length (cram_encode (firstn (S j) cs)))%nat /\
+         read_stream (cram_read_container crc) (firstn k s) =
+           (map (cram_out crc) (firstn j cs), Err UnexpectedEof)) /\
+    ((length s <= k)%nat ->
+       read_stream (cram_read_container crc) (firstn k s) = (map (cram_out crc) cs, Eof)).
+Proof. exact cram_stream_truncation. Qed.
+Print Assumptions c13_cram_stream_truncation.
+
+(* the whole file: file definition fd, header container = header hch + body hb, data containers,
+   EOF container.  Every cut k < |file| ends in an ERROR (never a clean end): UnexpectedEof inside
+   the file definition or the header container's header; inside the header container's body what
+   the body decoder reports on the bytes present or, if it accepts them (the body is read through
+   io::Take), UnexpectedEof from the next container read; behind the header exactly the data
+   containers wholly inside the cut, then UnexpectedEof.  Only the whole file ends cleanly. *)
+Theorem c13_cram_container_truncation :
+  forall (crc : list N -> N) (hdr_body : list N -> option ekind)
+         (fd hch hb : list N) (fdv : list N * list N) (hlen : N),
+    read_file_definition fd = POk fdv [] ->
+    hc_read_header crc hch = POk hlen [] ->
+    length hb = N.to_nat hlen ->
+    hdr_body hb = None ->
+    forall cs eofc k, Forall (cram_good crc) cs -> cram_eof_good crc eofc ->
+      let file := fd ++ hch ++ hb ++ cram_encode cs ++ eofc in
+      let h2 := (length fd + length hch)%nat in
+      let base := (length fd + length hch + length hb)%nat in
+      ((k < h2)%nat -> cram_read crc hdr_body (firstn k file) = (false, ([], Err UnexpectedEof))) /\
+      ((h2 <= k < base)%nat ->
+         cram_read crc hdr_body (firstn k file) =
+           match hdr_body (firstn (k - h2) hb) with
+           | Some e => (false, ([], Err e))
+           | None => (true, ([], Err UnexpectedEof))
+           end) /\
+      ((base <= k < length file)%nat ->
+         exists j : nat,
+           (j <= length cs)%nat /\
+           (base + length (cram_encode (firstn j cs)) <= k)%nat /\
+           (j < length cs -> k < base + length (cram_encode (firstn (S j) cs)))%nat /\
+           cram_read crc hdr_body (firstn k file) =
+             (true, (map (cram_out crc) (firstn j cs), Err UnexpectedEof))) /\
+      ((length file <= k)%nat ->
+         cram_read crc hdr_body (firstn k file) = (true, (map (cram_out crc) cs, Eof))).
+Proof. exact cram_container_truncation. Qed.
+Print Assumptions c13_cram_container_truncation.
+
+(* ---- text records (VCF / SAM lines; model of the record_bufs path: read_line + record parser, the
+   parser being the parameter [parse_ok]) on a source that ends ([after] = Eof) or fails
+   ([after] = Err e) after its last byte.  The statement of C13 taken literally -- the items
+   returned are a prefix of the written records -- is FALSE for such a reader (refuted below);
+   what holds for every cut is [text_cut_result]: all the complete lines before the cut, then
+   [after] at a line boundary, the error when the source fails inside a line, and, when the source
+   ENDS inside a line, the partial line as one more record if the parser accepts it ---- *)
+Definition c13_text_truncation_full_statement : Prop :=
+  forall (parse_ok : list N -> option ekind) ls k, Forall (line_good parse_ok) ls ->
+    exists j, fst (read_stream (text_read_record parse_ok Eof) (firstn k (text_encode ls))) = firstn j ls.
+
+Theorem c13_text_over_bgzf_truncation_refuted : ~ c13_text_truncation_full_statement.
+Proof. exact text_truncation_refuted. Qed.
+Print Assumptions c13_text_over_bgzf_truncation_refuted.
+
+Theorem c13_text_stream_truncation :
+  forall (parse_ok : list N -> option ekind) after ls k, Forall (line_good parse_ok) ls ->
+    exists i : nat,
+      (i <= length ls)%nat /\
+      (length (text_encode (firstn i ls)) <= k)%nat /\
+      (i < length ls -> k < length (text_encode (firstn (S i) ls)))%nat /\
+      read_stream (text_read_record parse_ok after) (firstn k (text_encode ls)) =
+        text_cut_result parse_ok after ls i k.
+Proof. exact text_stream_truncation. Qed.
+Print Assumptions c13_text_stream_truncation.
+
+(* every returned item other than the last one is the written line at the same index *)
+Theorem c13_text_complete_lines_unchanged :
+  forall (parse_ok : list N -> option ekind) after ls k i l, Forall (line_good parse_ok) ls ->
+    let res := fst (read_stream (text_read_record parse_ok after) (firstn k (text_encode ls))) in
+    (S i < length res)%nat -> nth_error res i = Some l -> nth_error ls i = Some l.
+Proof. exact text_complete_lines_unchanged. Qed.
+Print Assumptions c13_text_complete_lines_unchanged.
+
+(* bgzipped text: the BGZF layer's outcome s at the cut decides; the only possible alteration is
+   the LAST returned record being a prefix of the written line, exactly when the delivered bytes
+   end inside that line and the BGZF layer reads the cut as a clean end (cut at a block boundary
+   or < 18 bytes into the next block header) and the record parser accepts the partial line: this
+   is the finding class text-truncated-final-line-accepted-{vcfgz,samgz} *)
+Theorem c13_text_over_bgzf_truncation_partial :
+  forall (inflate : list N -> option (list N)) (parse_ok : list N -> option ekind) fs ls hdrbytes k,
+    Forall (frame_good inflate) fs -> Forall (line_good parse_ok) ls ->
+    concat (map (frame_data inflate) fs) = hdrbytes ++ text_encode ls ->
+    exists (j : nat) (s : stop),
+      bgzf_blocks inflate (firstn k (bgzf_file fs)) = (map (frame_data inflate) (firstn j fs), s) /\
+      (s = Eof \/ s = Err UnexpectedEof) /\
+      let p := concat (map (frame_data inflate) (firstn j fs)) in
+      let n := (length p - length hdrbytes)%nat in
+      if (length p <? length hdrbytes)%nat
+      then rec_over_bgzf inflate (text_read_record parse_ok) (length hdrbytes) (firstn k (bgzf_file fs)) = None
+      else exists i : nat,
+        (i <= length ls)%nat /\
+        (length (text_encode (firstn i ls)) <= n)%nat /\
+        (i < length ls -> n < length (text_encode (firstn (S i) ls)))%nat /\
+        rec_over_bgzf inflate (text_read_record parse_ok) (length hdrbytes) (firstn k (bgzf_file fs)) =
+          Some (text_cut_result parse_ok s ls i n).
+Proof. exact text_over_bgzf_truncation. Qed.
+Print Assumptions c13_text_over_bgzf_truncation_partial.
 
 (* ---- non-vacuity ---- *)
 (* a 36-byte BAM record (32 fixed bytes, name "r\0", no cigar, 1 base, 1 quality) is [bam_good] *)
@@ -181,3 +368,46 @@ Example c13_ex_bai :
   read_bai (firstn 23 (w_bai i)) = Some (mkbai [mkbref [] None []] None) /\
   read_bai (firstn 24 (w_bai i)) = Some i.
 Proof. exact bai_trunc_example. Qed.
+
+(* CRAM: with the real CRC-32, the 38-byte EOF container of the specification is [cram_eof_good],
+   a small hand-made container is [cram_good], "CRAM" 3.0 + 20 id bytes is a file definition, and
+   a cut inside the EOF container's body is an error *)
+Definition ex_cram_eof : list N :=
+  [15;0;0;0; 255;255;255;255;15; 224;69;79;70; 0; 0; 0; 0; 1; 0; 5;189;217;79;
+   0;1;0;6;6;1;0;1;0;1;0;238;99;1;75].
+Definition ex_cram_dc_fields : list N := [3;0;0;0; 255;255;255;255;15; 0; 0; 2; 0; 7; 1; 1; 0].
+Definition ex_cram_dc : list N :=
+  ex_cram_dc_fields ++ le32 (crc32 ex_cram_dc_fields) ++ [1;2;3].
+Example c13_ex_cram :
+  cram_eof_good crc32 ex_cram_eof /\ cram_good crc32 ex_cram_dc /\
+  (exists v, read_file_definition (cram_magic ++ [3;0] ++ repeat 0 20) = POk v []) /\
+  read_stream (cram_read_container crc32) (firstn 61 (ex_cram_dc ++ ex_cram_eof)) =
+    ([cram_out crc32 ex_cram_dc], Err UnexpectedEof) /\
+  read_stream (cram_read_container crc32) (ex_cram_dc ++ ex_cram_eof) = ([cram_out crc32 ex_cram_dc], Eof) /\
+  ch_nrec (fst (cram_out crc32 ex_cram_dc)) = 2 /\ snd (cram_out crc32 ex_cram_dc) = [1;2;3].
+Proof.
+  split; [eexists; eexists; vm_compute; reflexivity|].
+  split; [eexists; eexists; vm_compute; reflexivity|].
+  split; [eexists; vm_compute; reflexivity|].
+  vm_compute. repeat split.
+Qed.
+
+Example c13_ex_gzi :
+  let idx := [(100, 65280); (230, 130560)] in
+  length (w_gzi idx) = 40%nat /\
+  read_gzi (firstn 39 (w_gzi idx)) = None /\
+  read_gzi (firstn 24 (w_gzi idx)) = None /\
+  read_gzi (firstn 8 (w_gzi idx)) = None /\
+  read_gzi (firstn 40 (w_gzi idx)) = Some idx.
+Proof. exact gzi_trunc_example. Qed.
+
+(* text: two lines "AB", "CD"; a source that ends inside the second line returns the altered
+   record "C", a source that fails there returns the error *)
+Example c13_ex_text :
+  let ok := fun _ : list N => @None ekind in
+  let s := text_encode [[65;66];[67;68]] in
+  read_stream (text_read_record ok Eof) (firstn 3 s) = ([[65;66]], Eof) /\
+  read_stream (text_read_record ok Eof) (firstn 4 s) = ([[65;66];[67]], Eof) /\
+  read_stream (text_read_record ok (Err UnexpectedEof)) (firstn 4 s) = ([[65;66]], Err UnexpectedEof) /\
+  read_stream (text_read_record ok Eof) (firstn 6 s) = ([[65;66];[67;68]], Eof).
+Proof. vm_compute. repeat split. Qed.
